@@ -114,6 +114,17 @@ def grafts(text: str) -> Iterator[Tuple[str, str, str, str]]:
             t2 = copy.deepcopy(tree)
             t2 = _Replace(idx, lambda x, tmpl=tmpl: _fill(tmpl, x)).visit(t2)
             yield cid, where, k, ast.unparse(ast.fix_missing_locations(t2))
+        # a keyword argument on ANY call (collection fetch, LINQ operator, aggregate, Range, math function, ...): nothing in
+        # the translation honours one, so each must be refused rather than dropped
+        if isinstance(n, ast.Call) and not n.keywords and not (isinstance(n.func, ast.Attribute) and n.func.attr in ("pt", "eta", "nTrk", "q")):
+            t5 = copy.deepcopy(tree)
+
+            def kw_any(x):
+                y = copy.deepcopy(x)
+                y.keywords = [ast.keyword(arg="extra", value=ast.Constant(1))]
+                return y
+            fname = n.func.attr if isinstance(n.func, ast.Attribute) else getattr(n.func, "id", "?")
+            yield "kwargs-on-" + fname, where, "call", ast.unparse(ast.fix_missing_locations(_Replace(idx, kw_any).visit(t5)))
         # method calls on objects: keyword arguments and the templated getAttribute
         if isinstance(n, ast.Call) and isinstance(n.func, ast.Attribute) and n.func.attr in ("pt", "eta", "nTrk", "q") and not n.keywords:
             t2 = copy.deepcopy(tree)
